@@ -942,6 +942,43 @@ pub fn c12(tier: Tier) -> i32 {
             break;
         }
     }
+    // the receiver exactly at 0 N 0 E (a legal position, not "unconfigured")
+    {
+        let d0 = if tier.thorough() { 4 } else { 3 };
+        let o = explore(&run, &format!("C12/rx0N0E/d{d0}"), tracker(alphabet_c12(), (0.0, 0.0), 500.0, 1_000_000_000, 12), d0);
+        outs.push(("rx0N0E".into(), o));
+    }
+    // more than a thousand aircraft at once: one identification frame from each of 1300 addresses, then a second round
+    {
+        let n_addr = 1300u32;
+        let alpha: Vec<Ev> = (0..n_addr).map(|i| Ev::Frame { name: format!("b{i}.ident"), bytes: crate::enc::es_frame(17, 5, 0x700000 + i * 7, crate::enc::me_ident(4, 0, "MANY")) }).collect();
+        let m = tracker(alpha, (35.0, -80.0), 500.0, 1_000_000, 12);
+        let mut s = m.init_states().remove(0);
+        let mut steps = 0u64;
+        'outer: for round in 0..2 {
+            for i in 0..n_addr as usize {
+                steps += 1;
+                match m.next_state(&s, i) {
+                    Some(nx) => s = nx,
+                    None => break 'outer,
+                }
+                s.hist.clear();
+                if let Some(v) = s.viol.iter().find(|v| v.0 == 12) {
+                    run.violation(Violation {
+                        oracle: v.1.clone(),
+                        class: format!("C12/many-addresses:{}", v.1),
+                        input: format!("prop=12 one identification frame from each of the addresses 700000 + 7*k, k = 0..{} (round {round}, failing at k = {i})", n_addr - 1),
+                        expected: v.2.clone(),
+                        observed: v.3.clone(),
+                    });
+                    break 'outer;
+                }
+            }
+        }
+        m.found.lock().unwrap().clear();
+        run.add("many_addresses_transitions", steps);
+        outs.push(("many-addresses".into(), Outcome { states: steps, transitions: steps, depth: steps as usize, ambiguous: 0 }));
+    }
     // every type code, and the all-zero address (a legal address, not a sentinel)
     {
         let dt = if tier.thorough() { 4 } else { 3 };
@@ -1037,6 +1074,13 @@ pub fn c13(tier: Tier) -> i32 {
         }
         run.add("nl_strip_transitions", n_pairs);
     }
+    // longitude-zone rounding ties
+    {
+        let rxt = (5.0, 0.05);
+        let dt = if tier.thorough() { 5 } else { 4 };
+        let o = explore(&run, &format!("C13/lon-ties/d{dt}"), tracker(alphabet_c13_lonties(), rxt, 2000.0, 1_000_000_000, 13), dt);
+        outs.push(("lon-ties".into(), o));
+    }
     // receivers next to the poles: raw reports on and next to the +-90 deg zone latitudes (NL = 1)
     for (label, south) in [("south-pole", true), ("north-pole", false)] {
         let rxp = if south { (-89.9, 30.0) } else { (89.9, 30.0) };
@@ -1071,6 +1115,13 @@ pub fn c14(tier: Tier) -> i32 {
     let rx = (35.0, -80.0);
     let o = explore(&run, &format!("C14/attrs/d{depth}"), tracker(alphabet_c14(rx), rx, 500.0, 1_000_000_000, 14), depth);
     outs.push(("attrs".into(), o));
+    // an aircraft at exactly 0 N 0 E is an aircraft with a position
+    {
+        let rxn = (0.1, 0.1);
+        let dn = if tier.thorough() { 6 } else { 5 };
+        let o = explore(&run, &format!("C14/null-island/d{dn}"), tracker(alphabet_c14_nullisland(), rxn, 500.0, 1_000_000_000, 14), dn);
+        outs.push(("null-island".into(), o));
+    }
     // altitude codes in paired reports (0 ft is an altitude)
     {
         let da = if tier.thorough() { 6 } else { 5 };
